@@ -23,14 +23,14 @@ RULE = ('worlds of 2 committers (read-modify-write of 1-3 of 4 cells with one un
         '[serial, next revision) must intersect (consistent) and intersect above the tid of the last commit whose return preceded the '
         'transaction\'s boundary (fresh); own writes visible; readers may only fail with ReadConflictError when a packer runs. '
         'evaluations = schedules executed; distinct_nontrivial = distinct decision traces in which at least one reading transaction '
-        'overlapped a commit return.')
+        'overlapped a commit return. In addition all interleavings of the steps of two single-threaded connections (5 small programs, every pair; quick: every third order) are enumerated with an exact snapshot model (step_orders counter).')
 LEVEL_TEXT = ('Held on the explored schedules (tens of thousands of distinct interleavings at statement granularity per thorough run); '
               'no finite set of schedules proves the universally quantified statement.')
 LEVEL_NOTE = ('Interleavings finer than statement starts inside one Python statement are not produced. Revision lists are read from the '
               'storage iterator after the run (C04). Deadlock is decided on scheduler state, never on wall-clock.')
 ASSUMPTIONS = ['thread switches at statement starts, lock operations and raw I/O calls are a subset of the real interleavings']
 REQUIRED_COUNTERS = ('schedules', 'context_switches', 'reader_transactions_checked', 'transactions_overlapping_a_commit', 'ok_commits',
-                     'locations_parked')
+                     'locations_parked', 'step_orders')
 
 KINDS = ['file', 'file', 'mapping', 'demo', 'demo-file', 'file+packer']
 
@@ -39,11 +39,114 @@ def shards(tier, seed):
     return split(tier, seed, 16, 16, 45, 900)
 
 
+def step_orders(sh, params):
+    """exhaustive interleavings of the steps of two single-threaded connections (no scheduler): every read must show
+    the state as of the reader's last boundary plus its own writes"""
+    import transaction
+    import ZODB
+    import ZODB.MappingStorage
+    import ZODB.DemoStorage
+    from zv import recfs, objs
+    from ZODB.POSException import ConflictError
+    FSM = recfs.install()
+    recfs.LOG.enabled = False
+    progs = [
+        [('begin',), ('read', 'x'), ('write', 'x'), ('read', 'y'), ('commit',)],
+        [('begin',), ('read', 'y'), ('write', 'y'), ('commit',), ('read', 'x')],
+        [('begin',), ('read', 'x'), ('abort',), ('read', 'x'), ('read', 'y')],
+        [('begin',), ('write', 'x'), ('write', 'y'), ('commit',), ('reopen',), ('read', 'x')],
+        [('begin',), ('read', 'x'), ('minimize',), ('read', 'y'), ('read', 'x'), ('commit',)],
+    ]
+
+    def orders(a, b):
+        if not a and not b:
+            yield []
+            return
+        if a:
+            for r in orders(a[1:], b):
+                yield [(0, a[0])] + r
+        if b:
+            for r in orders(a, b[1:]):
+                yield [(1, b[0])] + r
+    pairs = [(i, j) for i in range(len(progs)) for j in range(len(progs))]
+    mine = pairs[params['shard']::params['nshards']]
+    kinds = ['file', 'mapping', 'demo']
+    n = 0
+    for (i, j) in mine:
+        allo = list(orders(progs[i], progs[j]))
+        if params['tier'] == 'quick':
+            allo = allo[::3]
+        for order in allo:
+            kind = kinds[n % 3]
+            n += 1
+            d = sh.fresh_dir('so')
+            st = (FSM.FileStorage(os.path.join(d, 'D.fs')) if kind == 'file' else
+                  ZODB.MappingStorage.MappingStorage() if kind == 'mapping' else ZODB.DemoStorage.DemoStorage())
+            db = ZODB.DB(st)
+            with db.transaction() as c:
+                c.root()['x'] = objs.Plain()
+                c.root()['y'] = objs.Plain()
+            tms = [transaction.TransactionManager(), transaction.TransactionManager()]
+            conns = [db.open(tms[0]), db.open(tms[1])]
+            committed = {'x': 'init', 'y': 'init'}
+            snap = [dict(committed), dict(committed)]      # what each connection must see
+            own = [{}, {}]
+            uid = 0
+            for (ci, stp) in order:
+                c, tm = conns[ci], tms[ci]
+                if stp[0] == 'begin':
+                    tm.begin()
+                    snap[ci] = dict(committed)
+                    own[ci] = {}
+                elif stp[0] == 'read':
+                    got = c.root()[stp[1]].tok
+                    exp = own[ci].get(stp[1], snap[ci][stp[1]])
+                    if got != exp:
+                        sh.violation('c02:%s:step-order:read-differs-from-snapshot-at-boundary' % kind,
+                                     {'order': order, 'conn': ci, 'object': stp[1], 'got': got, 'expected': exp},
+                                     {'step_order': True, 'kind': kind})
+                elif stp[0] == 'write':
+                    uid += 1
+                    o = c.root()[stp[1]]
+                    o.base, o.tok = o.tok, 'w%d-%d' % (ci, uid)
+                    own[ci][stp[1]] = o.tok
+                elif stp[0] == 'minimize':
+                    c.cacheMinimize()
+                elif stp[0] == 'commit':
+                    try:
+                        tm.commit()
+                        committed.update(own[ci])
+                    except ConflictError:
+                        tm.abort()
+                    snap[ci] = dict(committed)          # commit/abort is a boundary
+                    own[ci] = {}
+                elif stp[0] == 'abort':
+                    tm.abort()
+                    snap[ci] = dict(committed)
+                    own[ci] = {}
+                elif stp[0] == 'reopen':
+                    tm.abort()
+                    c.close()
+                    conns[ci] = db.open(tm)
+                    snap[ci] = dict(committed)
+                    own[ci] = {}
+            for c in conns:
+                c.close()
+            db.close()
+            sh.count('step_orders')
+
+
 def run_shard(params, which=None):
     from zv import mvccload
     which = which or WHICH
     logging.disable(logging.CRITICAL)
     sh = Shard(params)
+    if which == 'c02':
+        try:
+            step_orders(sh, params)
+        except Exception:
+            import traceback
+            sh.violation('c02:step-order:harness-or-code-raises', {'exc': traceback.format_exc()[-600:]}, {'step_order': True})
     s0 = params['seed'] * 100003 + params['shard'] * 7919
     rnd = random.Random(s0)
     sweep = {}
